@@ -344,6 +344,7 @@ type End struct {
 	delivered []byte
 	finDeliv  bool
 	closed    bool  // closed locally
+	closedAt  time.Duration
 	rerr      error // reset
 	Stalled   bool  // no delivery towards this end while set
 	window    int
@@ -502,6 +503,7 @@ func (e *End) Close() error {
 		return &net.OpError{Op: "close", Net: "tcp", Err: net.ErrClosed}
 	}
 	e.closed = true
+	e.closedAt = e.conn.n.C.Now()
 	e.peer.finQueued = true
 	e.bcast()
 	e.peer.bcast()
@@ -624,6 +626,14 @@ func (e *End) Err() error {
 	mu.Lock()
 	defer mu.Unlock()
 	return e.rerr
+}
+
+// ClosedAt reports when this end was closed locally (simulated time).
+func (e *End) ClosedAt() (time.Duration, bool) {
+	mu := &e.conn.n.mu
+	mu.Lock()
+	defer mu.Unlock()
+	return e.closedAt, e.closed
 }
 
 // IsClosed reports a local close.
